@@ -27,6 +27,7 @@ ASSUMPTIONS = ["expected container types are get_type(value) evaluated by the or
                "resolvability classes decided by construction (DESIGN.md section 3)", "single thread"]
 
 _PROG_CACHE = collections.OrderedDict()
+_EVICTIONS = [0]
 _CACHE_MAX = int(os.environ.get("VERIF_PROG_CACHE", "600"))
 
 
@@ -81,6 +82,14 @@ def get_program(spec):
     if len(_PROG_CACHE) > _CACHE_MAX:
         _, old = _PROG_CACHE.popitem(last=False)
         P.unload(old)
+        _EVICTIONS[0] += 1
+        if _EVICTIONS[0] % 48 == 0:
+            # frozen objects are never collected: in a long batch whose program pool is larger than the cache, evicted programs
+            # would pile up for ever (a thorough-tier worker grew past 1.8 GB).  Thaw, collect, freeze again - between runs,
+            # before the journal of the next run is reset.
+            gc.unfreeze()
+            gc.collect()
+            gc.freeze()
     return lp
 
 
